@@ -808,7 +808,6 @@ pub open spec fn market_wf(s: State) -> bool { wf2(s) && props_ok(props_m(s)) &&
     ensures
         // "only by its own provider, no later than its start epoch and only in a sector that outlives it"
         r.is_ok() <==> proposal.provider == *miner_addr && curr_epoch <= proposal.start_epoch && proposal.end_epoch <= sector_expiration,
-        r.is_err() ==> r->Err_0.code == (if proposal.provider != *miner_addr { 18u32 } else if curr_epoch > proposal.start_epoch { EX_DEAL_EXPIRED.value } else { 16u32 }),
 //@ end
 //@ fn actors/market/src/lib.rs preactivate_deal rt=ref
     ensures
